@@ -140,7 +140,7 @@ func NoOut() M {
 	return M{"class": "none", "status": 0, "err": "none", "doc": false, "req": "none", "target": "none", "channel": "none",
 		"state": "none", "code": "none", "at": noTok(), "rt": noRt(), "idt": noIdt(), "scope": []string{}, "sub": "none",
 		"rotated": "none", "bare": true, "dc": "none", "uc": "none", "journal": []string{}, "issuedType": "", "actor": "none",
-		"auth": "none", "expiresOff": 0, "faulted": false}
+		"auth": "none", "expiresOff": 0, "faulted": false, "ucBound": true}
 }
 
 // ------------------------------------------------------------ helpers on generic args
@@ -947,6 +947,11 @@ func (d *Driver) Exec(opName string, a M) M {
 			kind = "error"
 		}
 		d.Store.SetFault(0, f, kind)
+		if B(a, "faultOnce") {
+			d.Store.Lock()
+			d.Store.FailOnce = true
+			d.Store.Unlock()
+		}
 	}
 	if k, ok := a["faultAt"].(int); ok && k > 0 {
 		// fault plan of the C10 sweep: the k-th storage call of this operation fails
@@ -1206,10 +1211,13 @@ func (d *Driver) Exec(opName string, a M) M {
 				d.ucOf[n] = S(body, "user_code")
 				out["class"], out["dc"], out["uc"] = "device", n, "uc-"+n
 				out["deviceResponse"] = body
-				// the client the storage was told the device code belongs to
+				// the client the storage was told the device code belongs to, and whether the user code of the response is the one the
+				// storage bound to this device code
+				out["ucBound"] = false
 				d.Store.Lock()
 				if dv, ok := d.Store.Devices[dc]; ok && dv.State != nil {
 					out["req"] = dv.State.ClientID
+					out["ucBound"] = dv.UserCode == S(body, "user_code") && dv.UserCode != ""
 				}
 				d.Store.Unlock()
 			}
